@@ -487,8 +487,11 @@ class Session:
         cov["rule"] = ("one case per generated obligation with a distinct id (non-trivial: expects unsat, i.e. a proof "
                        "obligation rather than a cover); stand-in cases counted by each stand-in's own rule")
         cov.update(self.extra_coverage)
+        generic = ["the verifier pyvc itself (symbolic execution of the Python subset, loop summaries, pydantic construction model) and the SMT solvers",
+                   "machine arithmetic treated as mathematical (floats read as reals) in every discharged obligation; rounding is exercised by the bounded stand-ins only",
+                   "CPython semantics of the constructs outside the modelled subset are not used: a function that leaves the subset makes its obligations undecided"]
         ev = dict(property_id=self.prop, tier=self.tier, seed=self.seed, level=self.level, coverage=cov,
-                  assumptions=self.assumptions, wall_s=round(wall, 2), violations=len(self.violations))
+                  assumptions=list(self.assumptions) + list(trusted) + generic, wall_s=round(wall, 2), violations=len(self.violations))
         if self.errors:
             ev["errors"] = self.errors
         os.makedirs(os.path.join(OUT_ROOT, "evidence"), exist_ok=True)
